@@ -203,7 +203,7 @@ FftLongerInputTruncates ==
        /\ (tdef = def) <=> (Pl!Fold(c.v, c.n) = Pl!Resize(c.v, c.n))
        /\ (tcdef = cdef) <=> (Pl!Fold(gv, c.n) = Pl!Resize(gv, c.n))
        /\ (c.n = 2 /\ c.v = Unit(3, 3, 3)) =>
-            PrintT(<<"DEVIATION", "fft", "len>n", c.v, FftOut(Serial, FALSE), def>>)
+            PrintT("DEVIATION|fft|len>n|" \o ToString(<<c.v, FftOut(Serial, FALSE), def>>))
 
 \* folding lemma: evaluation on the subgroup only sees the vector mod X^n - 1
 FoldLemma ==
@@ -364,7 +364,7 @@ BarycentricInDomainYieldsZero ==
     IN /\ def = Pl!ValueAt(c.e, k)
        /\ code = 0
        /\ (c.n = 4 /\ k = 3 /\ c.e = Unit(4, 3, 3)) =>
-            PrintT(<<"DEVIATION", "barycentric_eval", "point-in-domain", c.e, c.x, code, def>>)
+            PrintT("DEVIATION|barycentric_eval|point-in-domain|" \o ToString(<<c.e, c.x, code, def>>))
 
 \* fused L_1 / PI evaluation of the verifier: refuses exactly on x = 1 and on
 \* domain points carrying a non-zero public input, else equals the definitions
